@@ -3,14 +3,14 @@ from .. import cases, monitors, oracles
 from . import _align_common as ac
 
 TITLE = "Soft alignment is a minimum-disorder cover"
-DECIDING = ["M-COVER", "M-OPT", "M-SESSION"]
+DECIDING = ["M-COVER", "M-OPT", "M-SESSION", "M-COVER-CONCURRENT"]
 LEVEL = "exploration"
 RULE = ("seeded random continua up to 2x9, 3x9, 4x5, 5x3 units x pooled dissimilarities x both MIP back-ends; the "
         "returned soft alignment is checked to be a well-formed cover (M-COVER) and its disorder compared with the "
         "unpruned exact minimum cover (bitmask DP <= 14 units, HiGHS MILP with A x >= 1) and with the best partition "
         "of the same continuum; thorough tier adds the complete '2 annotators x <= 2 units' and '3 annotators x <= 2 "
-        "units' grids; a corpus of continua whose cover programme has an integrality gap (mined off-line, judged at run time); 10 % of the random cases are editing sessions (compute, edit the same continuum object, compute again); "
-        "non-trivial = >= 2 units and >= 2 non-empty annotators; distinct by SHA-1 of the case")
+        "units' grids; a block with delta_empty 1e-4 .. 1e-6 (compared in units of delta_empty); a corpus of continua whose cover programme has an integrality gap (mined off-line, judged at run time); 10 % of the random cases are editing sessions (compute, edit the same continuum object, compute again); a block in which "
+        "one continuum object is soft-aligned by 8 user threads at once with different dissimilarities; non-trivial = >= 2 units and >= 2 non-empty annotators; distinct by SHA-1 of the case")
 ASSUMPTIONS = [
     "pair costs come from the compiled d_mat on arrays built by the harness; enumeration, pair mean and optimisation "
     "are independent of the library",
@@ -33,6 +33,8 @@ def _oracle_doubt(ctx, what):
 
 
 def check_case(ctx, case):
+    if "concurrent" in case:
+        return ac.check_concurrent_case(ctx, case, "M-COVER-CONCURRENT")
     if "session" in case:
         # one continuum object and one dissimilarity object: compute, edit, compute again (stale caches show here)
         _, pool = ac.setup(ctx)
@@ -91,15 +93,15 @@ def _check(ctx, case, continuum):
     recomputed = ac.alignment_cost_from_tensor(cspec, soft, tensor, sizes)
     detail = {"reported": got, "recomputed_from_units": recomputed, "oracle": opt["methods"], "solvers": solvers,
               "best_partition": float(best.disorder)}
-    if not oracles.close(recomputed, ref):
+    if not oracles.close_at_scale(recomputed, ref, dissim.delta_empty):
         if recomputed > ref:
             ctx.fail("cover-not-minimal", detail, monitor="M-OPT")
         else:
             _oracle_doubt(ctx, f"returned cover costs less than the oracle optimum: {detail}")
         return
-    if not oracles.close(got, ref):
+    if not oracles.close_at_scale(got, ref, dissim.delta_empty):
         ctx.fail("reported-disorder-not-the-minimum", detail, monitor="M-OPT")
-    if got > float(best.disorder) and not oracles.close(got, float(best.disorder)):
+    if got > float(best.disorder) and not oracles.close_at_scale(got, float(best.disorder), dissim.delta_empty):
         ctx.fail("soft-exceeds-best", detail, monitor="M-OPT")
 
 
@@ -114,11 +116,25 @@ def run(ctx):
                 "session": ac.gen_edit_ops(ctx.rng, cs0, cases.LABELS_SMALL, 3)}
         ctx.begin_case(case)
         check_case(ctx, case)
+    # one continuum object soft-aligned by several user threads at once (dissimilarities with different candidate tables / label indices)
+    for _ in range(ctx.scale(4, 60)):
+        case = ac.gen_concurrent_case(ctx.rng, "soft")
+        ctx.begin_case(case)
+        ctx.observe("family", "concurrent-threads")
+        check_case(ctx, case)
     # continua whose cover programme has an integrality gap (the solvers have to branch): _align_common.hard_mip_cases
     for i, hc in enumerate(ac.hard_mip_cases(ctx, "cover", limit=ctx.scale(15, None), min_gap=1e-3)):
         case = dict(hc, backend="cbc" if i % 2 == 0 else "glpk", want="auto")
         ctx.begin_case(case)
         ctx.observe("family", "integrality-gap")
+        check_case(ctx, case)
+    # very small delta_empty: costs of the order of 1e-5 .. 1e-6, below the absolute tolerances MIP solvers work with
+    for i in range(ctx.scale(12, 200)):
+        case = ac.gen_oracle_case(ctx, [{"kind": "positional", "delta": d_} for d_ in (1e-5, 3e-6, 3e-5)] +
+                                  [{"kind": "combined", "alpha": 1.0, "beta": 1.0, "delta": d_, "pos": None, "cat": None} for d_ in (1e-5, 1e-6, 1e-4)],
+                                  families=["dense", "longoverlap", "grid", "generic"])
+        ctx.begin_case(case)
+        ctx.observe("family", "small-delta_empty")
         check_case(ctx, case)
     for _ in range(ctx.scale(220, 5000)):
         if ctx.out_of_time():
